@@ -790,5 +790,30 @@ def c28(scn, run):
     return None
 
 
-ORACLES = {"C28": c28, "C29": c29, "C30": c30, "C20": c20, "C31": c31, "C46": c46, "C45": c45, "C06": c06, "C19": c19, "C43": c43, "C01": c01, "C02": c02, "C03": c03, "C04": c04, "C07": c07, "C09": c09, "C11": c11,
+def c05(scn, run):
+    """A limited queue never holds more non-manually-triggered members in preparing/submitted/running than
+    its limit (manually triggered tasks count as active but may exceed the limit; a queued task that gets held
+    keeps its place in the queue and is skipped by releases); every instance belongs to the last queue listing its name, else to `default`."""
+    qs = scn.get("queues", {})
+    owner = {}
+    for qn, qd in qs.items():
+        if qn != "default":
+            for m in qd["members"]:
+                owner[m] = qn
+    for e in run["trace"]:
+        if e["e"] != "tick_end":
+            continue
+        count = {}
+        for t in e["snap"]["tasks"]:
+            if t["status"] in ("preparing", "submitted", "running") and not t["manual"]:
+                qn = owner.get(t["id"][1], "default")
+                count[qn] = count.get(qn, 0) + 1
+        for qn, n in count.items():
+            lim = qs.get(qn, {}).get("limit", 0)
+            if lim and n > lim:
+                return f"queue {qn} (limit {lim}) has {n} non-triggered active members at the end of an iteration"
+    return None
+
+
+ORACLES = {"C05": c05, "C28": c28, "C29": c29, "C30": c30, "C20": c20, "C31": c31, "C46": c46, "C45": c45, "C06": c06, "C19": c19, "C43": c43, "C01": c01, "C02": c02, "C03": c03, "C04": c04, "C07": c07, "C09": c09, "C11": c11,
            "C25": c25, "C26": c26}
